@@ -189,6 +189,27 @@ def programs(tier):
                 ([(R.F_DESTINATION, dest)] if dest else [])
             yield ('s', 'i', (R.MT_CALL, 0, 3, f, [(b'u', 1)]))
     yield ('s', 'i', (R.MT_SIGNAL, 0, 3, [(R.F_PATH, (b'o', b'/p')), (R.F_INTERFACE, (b's', b'x.y')), (R.F_MEMBER, (b's', b'S'))], []))
+    # header values that are valid but sit next to something special: continuations and truncations of the reserved local
+    # interface and path and of the bus's own name, names at the 255-byte limit, the root path
+    near = {R.F_INTERFACE: [b'org.freedesktop.DBus.Locale', b'org.freedesktop.DBus.Local.sub', b'org.freedesktop.DBus.Loca', b'org.freedesktop.DBus', b'a.' + b'b' * 253],
+            R.F_PATH: [b'/org/freedesktop/DBus/Local/child', b'/org/freedesktop/DBus/Localx', b'/org/freedesktop/DBus/Loca', b'/org/freedesktop/DBus', b'/'],
+            R.F_MEMBER: [b'M' * 255, b'Local'],
+            R.F_DESTINATION: [b'org.freedesktop.DBus', b'org.freedesktop.DBus.Local', b'org.freedesktop.DBusx', b':1.' + b'9' * 252],
+            R.F_SENDER: [b'org.freedesktop.DBus', b'org.freedesktop.DBus.x', b':1.0'],
+            R.F_ERROR_NAME: [b'org.freedesktop.DBus.Error.Failed', b'org.freedesktop.DBus.Local.E', b'a.' + b'E' * 253]}
+    sig_base = {R.F_PATH: (b'o', b'/p'), R.F_INTERFACE: (b's', b'x.y'), R.F_MEMBER: (b's', b'S')}
+    for code, values in near.items():
+        for v in values:
+            if code in sig_base:
+                f = dict(sig_base)
+                f[code] = (R.FIELD_TYPE[code], v)
+                fl = [(c, f[c]) for c in (R.F_PATH, R.F_INTERFACE, R.F_MEMBER)]
+                yield ('s', 'i', (R.MT_SIGNAL, 0, 3, fl, [(b's', b'x')]))
+                yield ('g', 'i', (R.MT_CALL, 0, 7, fl, []))
+            elif code == R.F_ERROR_NAME:
+                yield ('g', 'i', (R.MT_ERROR, 0, 7, [(R.F_ERROR_NAME, (b's', v)), (R.F_REPLY_SERIAL, (b'u', 9))], [(b's', b'x')]))
+            else:
+                yield ('g', 'i', (R.MT_CALL, 0, 7, [(R.F_PATH, (b'o', b'/p')), (R.F_MEMBER, (b's', b'M')), (code, (b's', v))], []))
     # flag histories: every sequence of <= 3 calls of the three flag setters with TRUE/FALSE, on every message type
     ops = ['+n', '-n', '+a', '-a', '+i', '-i']
 
